@@ -77,7 +77,7 @@ def call_request(spec, truth, names, field, volfrac, limit):
     return {"op": "pestle_call", "names": list(names), "field": field, "volfrac": bool(volfrac), "limit": limit, "levels": levels}
 
 
-def run_case(ctx, rep, spec, field, volfrac, limit, model, path=None, truth=None, cli=False, start=None, pck=None, previous=None, finish=None):
+def run_case(ctx, rep, spec, field, volfrac, limit, model, path=None, truth=None, cli=False, start=None, pck=None, previous=None, finish=None, maxmins=False):
     from amr_kitchen import PlotfileCooker
     from amr_kitchen.pestle.pestle import volume_integral
     if path is None:
@@ -97,7 +97,7 @@ def run_case(ctx, rep, spec, field, volfrac, limit, model, path=None, truth=None
     nlev = len(spec["levels"])
     L = nlev - 1 if limit is None else limit
     sizes = {hi[d] - lo[d] + 1 for boxes in spec["levels"] for lo, hi in boxes for d in range(3)}
-    case = {"spec": spec, "field": field, "volfrac": volfrac, "limit": limit, "cli": cli, "finish": finish}
+    case = {"spec": spec, "field": field, "volfrac": volfrac, "limit": limit, "cli": cli, "finish": finish, "maxmins": maxmins}
     if previous is not None:
         case["previous"] = previous; rep.count("path-rewritten-with-another-refined-region-then-integrated-again")
     if pck is not None:
@@ -129,7 +129,7 @@ def run_case(ctx, rep, spec, field, volfrac, limit, model, path=None, truth=None
                 got = float(m.group(1))
             else:
                 if pck is None:
-                    reader = PlotfileCooker(path, ghost=True)
+                    reader = PlotfileCooker(path, ghost=True, maxmins=True) if maxmins else PlotfileCooker(path, ghost=True)
                 else:
                     if pck[0] is None:
                         pck[0] = PlotfileCooker(path, ghost=True)
@@ -217,6 +217,19 @@ def mixed_spec(rng, i):
     return spec
 
 
+def slab_spec(rng, axis=2):
+    """one coarse box refined by a slab in the MIDDLE of its extent along `axis`, over its whole cross-section: the coarse
+    cells no finer level covers lie on both sides of the slab (two separate runs of planes)"""
+    B = 4
+    n = [2 * B, 2 * B, 2 * B]; n[axis] = 4 * B
+    lo1 = [0, 0, 0]; hi1 = [2 * x - 1 for x in n]
+    lo1[axis] = 2 * B; hi1[axis] = 6 * B - 1            # coarse cells B .. 3B-1 along the axis
+    levels = [[[[0, 0, 0], [x - 1 for x in n]]], [[lo1, hi1]]]
+    return {"ndims": 3, "fields": ["density", "volFrac", "one"], "time": 0.75, "geo_low": [0.0, -0.5, 1.0], "dx0": [0.25, 0.5, 0.125],
+            "grid0": n, "block": B, "levels": levels, "layout": plotgen.random_layout(rng, levels, "scatter"),
+            "data": {"mode": "pestle", "seed": rng.randrange(1 << 30)}, "header_style": "amrex", "step": 3}
+
+
 def directories_session(ctx, rep, seed):
     from amr_kitchen import PlotfileCooker
     from amr_kitchen.pestle.pestle import volume_integral
@@ -274,6 +287,13 @@ def damaged_input(ctx, rep, seed):
 def run(ctx, rep, model=True):
     directories_session(ctx, rep, ctx.rng.randrange(1 << 30))
     damaged_input(ctx, rep, ctx.rng.randrange(1 << 30))
+    for axis in range(3):
+        spec = slab_spec(ctx.rng, axis); rep.count("refined-slab-in-the-middle-of-a-box")
+        for f, vf in (("density", False), ("one", True)):
+            run_case(ctx, rep, spec, f, vf, None, model)
+    # a reader that also holds the level headers' extrema, and a field whose values are all tiny (a trace species)
+    spec = slab_spec(ctx.rng, 0); spec["data"]["field_scale"] = [1e-11, 1.0, 1.0]; rep.count("trace-field-with-maxmins-reader")
+    run_case(ctx, rep, spec, "density", False, None, False, maxmins=True)
     n = 16 if ctx.quick else 80
     for i in range(n):
         spec = make_spec(ctx.rng, i) if i % 2 == 0 else mixed_spec(ctx.rng, i // 2)
@@ -336,4 +356,4 @@ def replay(ctx, rep, obj, model=True):
             run_case(ctx, rep, c["spec"], f, vf, lim, False, path, truth, pck=pck)
         run_case(ctx, rep, c["spec"], c["field"], c["volfrac"], c["limit"], model, path, truth, pck=pck)
         return
-    run_case(ctx, rep, c["spec"], c["field"], c["volfrac"], c["limit"], model, cli=c.get("cli", False), previous=c.get("previous"), finish=c.get("finish"))
+    run_case(ctx, rep, c["spec"], c["field"], c["volfrac"], c["limit"], model, cli=c.get("cli", False), previous=c.get("previous"), finish=c.get("finish"), maxmins=c.get("maxmins", False))
